@@ -266,6 +266,12 @@ package streams
 //@   modifies down.*, up.*, G_closes(down), G_isclosed(down), G_closes(up), G_isclosed(up)
 //@   ensures !old(reportsClosed(down)) ==> G_closes(down) == old(G_closes(down)) + 1     :downstream_closed
 //@   ensures !old(reportsClosed(up)) ==> G_closes(up) == old(G_closes(up)) + 1           :upstream_closed
+// C01: the two copy goroutines are exactly down->up and up->down (no third reader or writer of either end)
+//@   property C01
+//@   callsite pipeData#1 (arg0 chan<- error, arg1 io.Reader, arg2 io.Writer) require spec_sameref(arg1, down) && spec_sameref(arg2, up)      :one_copy_from_downstream_to_upstream
+//@   callsite pipeData#2 (arg0 chan<- error, arg1 io.Reader, arg2 io.Writer) require spec_sameref(arg1, up) && spec_sameref(arg2, down)      :one_copy_from_upstream_to_downstream
+//@   callsite pipeDebugData#1 (arg0 chan<- error, arg1 io.Reader, arg2 io.Writer) require spec_sameref(arg1, down) && spec_sameref(arg2, up)
+//@   callsite pipeDebugData#2 (arg0 chan<- error, arg1 io.Reader, arg2 io.Writer) require spec_sameref(arg1, up) && spec_sameref(arg2, down)
 
 // ---- BufferedInputConnection (C04, C06): the buffered reader of a connection wrapper is set once
 //@ func init
@@ -292,9 +298,29 @@ package streams
 // never thrown away because the caller's buffer happens to be smaller (the session's buffered reader asks
 // with 4096 bytes while the peer's multiplexer writes frames of up to 32 KiB as one message)
 //@ ghost G_snap_binary_ok() bool
+//@ ghost G_snap_msg() []byte
+//@ go func imin(a, b int) int { if a < b { return a }; return b }
 //@ func (wstc *WebsocketTunnelConnection) Read
 //@   property C01
 //@   safe
 //@   requires wstc.Conn != nil
-//@   callsite ReadMessage#1 (mt int, msg []byte, e error) assume G_snap_binary_ok() == (mt == websocket.BinaryMessage && e == nil) "ghost snapshot: a binary message was received without error"
-//@   ensures G_snap_binary_ok() ==> err == nil                                              :a_received_message_is_never_discarded
+//@   modifies wstc.Conn.*, wstc.pending, p[*]
+//@   callsite ReadMessage#1 (mt int, msg []byte, e error) assume G_snap_binary_ok() == (mt == websocket.BinaryMessage && e == nil) && spec_sameslice(G_snap_msg(), msg) "ghost snapshot: the message just received, and whether it is a binary message received without error"
+//@   ensures len(old(wstc.pending)) == 0 && G_snap_binary_ok() ==> err == nil                                              :a_received_message_is_never_discarded
+//@   ensures len(old(wstc.pending)) > 0 ==> err == nil && result == imin(len(p), len(old(wstc.pending))) && spec_sameslice(wstc.pending, old(wstc.pending)[result:])     :kept_bytes_are_delivered_first_and_in_order
+//@   ensures len(old(wstc.pending)) > 0 ==> (forall i :: 0 <= i && i < result ==> p[i] == old(wstc.pending[i]))            :kept_bytes_are_delivered_unchanged
+//@   ensures len(old(wstc.pending)) == 0 && G_snap_binary_ok() ==> result == imin(len(p), len(G_snap_msg())) && spec_sameslice(wstc.pending, G_snap_msg()[result:])      :what_does_not_fit_is_kept
+//@   ensures len(old(wstc.pending)) == 0 && G_snap_binary_ok() ==> (forall i :: 0 <= i && i < result ==> p[i] == G_snap_msg()[i])   :message_bytes_are_delivered_unchanged
+//@   ensures err != nil ==> result == 0                                                                                     :no_bytes_with_an_error
+
+//@ ghost G_ws_sent(c interface{}) int
+//@ func (wstc *WebsocketTunnelConnection) Write
+//@   property C01
+//@   safe
+//@   terminates
+//@   requires wstc.Conn != nil
+//@   ensures err == nil ==> result == len(p) && G_ws_sent(wstc.Conn) == old(G_ws_sent(wstc.Conn)) + len(p)     :every_byte_is_sent_exactly_once
+//@   callsite WriteMessage#1 (e error, p []byte) assert len(p) > buffers.BufferSize                                 :full_messages_of_the_buffer_size
+//@   loop 1 vars p []byte, dataLen int
+//@   loop 1 invariant 0 <= len(p) && len(p) <= dataLen && G_ws_sent(wstc.Conn) == old(G_ws_sent(wstc.Conn)) + dataLen - len(p)
+//@   loop 1 decreases len(p)
